@@ -439,6 +439,19 @@ def plan(ctx: Ctx) -> list[dict]:
     return jobs
 
 
+def _process_age() -> float:
+    """Seconds since this process started (Linux /proc; 0.0 if unknown)."""
+    try:
+        import os
+        with open('/proc/self/stat') as fh:
+            start_ticks = float(fh.read().rsplit(')', 1)[1].split()[19])
+        with open('/proc/uptime') as fh:
+            up = float(fh.read().split()[0])
+        return max(0.0, up - start_ticks / os.sysconf('SC_CLK_TCK'))
+    except Exception:  # noqa
+        return 0.0
+
+
 def run(ctx: Ctx) -> None:
     ctx.cov['rule'] = RULE
     ctx.assumptions += [
@@ -448,8 +461,11 @@ def run(ctx: Ctx) -> None:
         'structural edits themselves are judged by C04; here only the '
         'simulation/parameter views of the post-edit state are judged',
     ]
-    budget = 60.0 if ctx.quick else 1500.0
-    deadline = ctx.t0 + budget
+    # the quick budget counts from process start (imports can take 20 s on
+    # a loaded machine), so that the whole run stays within ~90 s
+    age = _process_age()
+    budget = max(25.0, 70.0 - age) if ctx.quick else 1500.0
+    deadline = time.time() + budget
     jobs = plan(ctx)
     for j in jobs:
         j['deadline'] = deadline
@@ -463,7 +479,7 @@ def run(ctx: Ctx) -> None:
     done_jobs = 0
     unfinished: list = []
     viol: list = []
-    for r in pmap(_dispatch, jobs, procs=ctx.procs, deadline=deadline + 10):
+    for r in pmap(_dispatch, jobs, procs=ctx.procs, deadline=deadline + 6):
         done_jobs += 1
         ctx.cov['evaluations'] += r['n']
         ctx.cov['distinct_nontrivial'] += r['nontriv']
